@@ -212,12 +212,12 @@ def h_stmt_model(ctx, end, nbank):
 
 
 # ---------------------------------------------------------------- --all: accounts discovered from ACCTINFORS
-def mk_response(ctx, n):
+def mk_response(ctx, n, kinds=None):
     """ACCTINFORS with n entries of symbolic kind (bank / credit card / investment), account type, id and service status"""
     entries = []
     infos = []
     for i in range(n):
-        kind = ctx.choice(f"kind{i}", ["bank", "cc", "inv"])
+        kind = kinds[i] if (kinds and kinds[i]) else ctx.choice(f"kind{i}", ["bank", "cc", "inv"])
         status = ctx.enum(f"status{i}", STATUSES)
         acct = ctx.str(f"acct{i}", 1, IDCH)
         if kind == "bank":
@@ -240,8 +240,9 @@ def mk_response(ctx, n):
     return ofx, entries
 
 
-def h_all(ctx, n, end):
-    ofx, entries = mk_response(ctx, n)
+def h_all(ctx, n, end, kinds=None):
+    """kinds: optionally fixes the kind of some entries (e.g. two bank accounts separated by an entry of any kind)"""
+    ofx, entries = mk_response(ctx, n, kinds)
     FakeTree.response = ofx
     ctx.stub(ofxget, "OFXTree", FakeTree)
     # accounts stored earlier in the user's configuration must not take the place of what the server reports
@@ -384,4 +385,7 @@ def instances(tier, seed):
         mk(f"cli[end={end}]", "cli", dict(end=end, accts=None if full else ["checking", "creditline", "creditcard", "investment"]))
         mk(f"cli[end={end},date notations]", "cli", dict(end=end, accts=["checking", "creditcard"]))
         mk(f"stmt_model[end={end}]", "stmt_model", dict(end=end, nbank=2 if not full else 3))
+    # one account per ACCTINFO wrapper, two accounts of one kind separated by an entry of any kind (the order is the server's choice)
+    for kinds in (["bank", None, "bank"], ["cc", None, "cc"]):
+        mk(f"all[3,{kinds},end=False]", "all", dict(n=3, end=False, kinds=kinds))
     return out
